@@ -250,7 +250,12 @@ def buildComp (r : Regs) : Nat → RegKind → Yaml → Except PyErr Comp
         if isCustom name then .ok (.mk name (rest.map (·.1)) (s1 ++ s2 ++ s3 ++ s4 ++ s5)) else
         match factoryCheck (r.of kind) name (rest.map (·.1)) with
         | .error e => .error e
-        | .ok (_, sel) => .ok (.mk name sel (s1 ++ s2 ++ s3 ++ s4 ++ s5))
+        | .ok (_, sel) =>
+          -- a nested component is part of what is built only if its key is one the function accepts
+          -- (`select_kwargs` drops the others together with whatever was built for them)
+          let keep (key : String) (l : List Comp) : List Comp := if sel.contains key then l else []
+          .ok (.mk name sel (keep "transition_functions" s1 ++ keep "reward_functions" s2 ++
+            keep "terminating_functions" s3 ++ keep "reward_function" s4 ++ keep "visibility_function" s5))
       | _ => .error .schemaError
     | _ => .error .schemaError
 
